@@ -49,7 +49,7 @@ def check_za(cx):
         cx.violate('G-ZA-ENTL', 'compute_za', 'no check that 8*len(id) fits in 16 bits before the u16 cast', fn.loc())
 
 
-def check_za_id(cx, qual, inst):
+def check_za_id(cx, qual, inst, params=('id',), want_calls=None):
     """F-ZA-ID: the ID that reaches compute_za is the caller's `id` whenever one was given: Some(x) -> x with nothing
     in between (a filter/map on the option would substitute or alter a legal ID, e.g. the empty one), None -> DEFAULT_ID"""
     fn = cx.fn(qual, 'F-ZA-ID')
@@ -60,10 +60,15 @@ def check_za_id(cx, qual, inst):
     if not cbs:
         cx.lost('F-ZA-ID', inst, 'no compute_za call in %s' % fn.short, fn.loc())
         return
-    for b in cbs:
+    if want_calls is not None and len(cbs) != want_calls:
+        cx.lost('F-ZA-ID', inst, 'expected %d compute_za calls in %s, found %d' % (want_calls, fn.short, len(cbs)), fn.loc())
+        return
+    for n_, b in enumerate(cbs):
         a = strip(G.call_args(fn, P, b)[0])
         ok, how = False, cn.c(a)
-        if a.k == 'param' and a.name == 'id':
+        if len(cbs) > 1:
+            inst = inst.split('#')[0] + '#%d' % (n_ + 1)
+        if a.k == 'param' and a.name in params:
             ok = True
         elif a.k == 'call' and last(a.name) in ('unwrap_or', 'unwrap_or_else', 'unwrap_or_default', 'unwrap', 'expect') and a.args:
             src = strip(a.args[0])
@@ -81,7 +86,7 @@ def check_za_id(cx, qual, inst):
                     rr = [cc.c(norm(PC.rvalue(st['rv'], b_, i_, 0))) for b_, i_, st in cl.stmts() if st['k'] == 'assign' and st['lhs']['l'] == 0 and not st['lhs']['p']]
                     dflt_ok = bool(rr) and all('DEFAULT_ID' in x or '1234567812345678' in x for x in rr)
                     how += ' with closure -> %s' % rr
-            ok = src.k == 'param' and src.name == 'id' and dflt_ok
+            ok = src.k == 'param' and src.name in params and dflt_ok
         cx.add('F-ZA-ID', inst, ok, 'ID handed to compute_za in %s: %s (the caller\'s id unchanged when given, DEFAULT_ID otherwise)' % (fn.short, how), G.where(fn, b))
 
 
